@@ -40,19 +40,19 @@ GENERAL_BASES = ["GaussLegendre", "FejerFirst", "Trapezoidal", "GaussChebyshev",
 ALPHAS = [-0.9, -0.5, 0, 0.5, 1, 2, 3.7, 10]
 LAGUERRE_NMAX = 150
 
-REQUIRED_HOOKS = ["OneDGrid.__init__", "Grid.integrate"] + [f"decided:{c}" for c in ALL_RULES]
-REQUIRED_FAMILIES = ["gauss", "interpolatory", "closed-form", "substitution", "trefethen-poly", "trefethen-strip", "random-params", "pinned-fejer2"]
+REQUIRED_HOOKS = ["OneDGrid.__init__", "Grid.integrate", "plain-OneDGrid"] + [f"decided:{c}" for c in ALL_RULES]
+REQUIRED_FAMILIES = ["gauss", "interpolatory", "closed-form", "substitution", "trefethen-poly", "trefethen-strip", "random-params", "pinned-fejer2", "incidental"]
 BUDGET = {"quick": 400, "thorough": 3000}
 TOL_GRAM = 1e-9
 TOL_DEF = 1e-9
 DEF_FLOOR = 1e-4  # |lib-ref| / (|ref| + DEF_FLOOR): relative, with an absolute floor of TOL_DEF*DEF_FLOOR = 1e-13
 TOL_DOMAIN = 1e-12
-SAT_BAND = 4 * np.finfo(float).eps
+SAT_BAND = 16 * np.finfo(float).eps  # ties are tolerated only this close (relative) to a finite domain end
 
 RULE = (
     "One case = one rule class x one size n x one value of its extra parameter (alpha; delta/h; d; rho; base rule), built through "
-    "the public constructor. Deterministic families: all 26 classes of grid.onedgrid x n in 2..40 + {63,64,65,100,101,128,129,200,"
-    "255,256,257} (quick) or every n in 2..400 (thorough) (n=1 where the class admits it; odd n for odd-only rules; Gauss-Laguerre "
+    "the public constructor. Deterministic families: all 26 classes of grid.onedgrid x n in 2..80 + {100,101,127,128,129,149,150,199,"
+    "200,201,255,256,257,399,400} (quick) or every n in 2..400 (thorough) (n=1 where the class admits it; odd n for odd-only rules; Gauss-Laguerre "
     "n<=150 x alpha in {-0.9,-0.5,0,0.5,1,2,3.7,10}; substitution rules with the class default step when nodes stay finite; Trefethen "
     "d in {1,5,9}, strip rho=1.1). Random family (seed dependent): alpha in (-1,20], step log-uniform in [1e-3, min(1, t_max/m)], "
     "rho in [1.05,3], random base rule. Monitors: (i) invariant attached to OneDGrid.__init__ (every 1-D grid built anywhere; deciding "
@@ -73,7 +73,7 @@ ASSUMPTIONS = [
 LEVEL_TEXT = "Every rule class x every n up to 400 (thorough) decided by independent Gram-matrix / definition oracles on the real constructor outputs; n beyond the sweep is not observed."
 TECHNIQUE = "runtime monitoring: invariant on OneDGrid.__init__ + post-conditions (orthonormal Gram matrices, mpmath node-map differentiation) on every rule constructor"
 
-NQ = list(range(2, 41)) + [63, 64, 65, 100, 101, 128, 129, 200, 255, 256, 257]
+NQ = list(range(2, 81)) + [100, 101, 127, 128, 129, 149, 150, 199, 200, 201, 255, 256, 257, 399, 400]
 NT = list(range(2, 401))
 PINNED_FEJER2 = [2, 3, 10, 11]
 
@@ -143,6 +143,10 @@ def cases(tier, seed):
                 out.append(("random-params", {"cls": c, "n": n, "k": k}, n * 3e-3 + 0.01))
     for n in PINNED_FEJER2:  # witnesses of the open finding: run first, never skipped
         out.append(("pinned-fejer2", {"cls": "FejerSecond", "n": n}, 1e9))
+    for i, c in enumerate(ALL_RULES):  # plain OneDGrids built by the library itself from a rule (slices, items, transforms)
+        n = 2 * (i % 7) + 5
+        if c not in TPOLY + TSTRIP or not c.endswith("General"):
+            out.append(("incidental", {"cls": c, "n": n}, 0.02))
     # parameter sets whose exact nodes/weights leave the float64 range: observed, not decided
     for c, n, kw in (("ExpSinh", 15, {}), ("ExpSinh", 41, {}), ("LogExpSinh", 201, {}), ("GaussLaguerre", 186, {"alpha": 0}), ("GaussLaguerre", 200, {"alpha": 0}), ("GaussLaguerre", 300, {"alpha": 2}), ("GaussLaguerre", 400, {"alpha": 0})):
         out.append(("observe-overflow", {"cls": c, "n": n, **kw}, 0.05))
@@ -175,6 +179,8 @@ def check_invariant(ctx, g):
     if not is_rule or _state["mode"] != "decide":
         tag = "plain-OneDGrid" if not is_rule else "observe-mode"
         ctx.count(f"invariant-not-deciding:{tag}")
+        if not is_rule:
+            ctx.hit("plain-OneDGrid")
         if not shape_ok:
             ctx.count(f"{tag}:shape-mismatch")
         if not (fin_p and fin_w):
@@ -328,6 +334,11 @@ def _size(ctx, name, g, n):
     ctx.check("n-nodes", name, int(g.size) == n and len(g.points) == n, sig="size", detail={"requested": n, "got": int(g.size)})
 
 
+def _n(n):
+    """Every third size is passed as a NumPy integer (admissible: the API asks for an int)."""
+    return np.int64(n) if n % 3 == 0 else int(n)
+
+
 def _loguniform(rng, lo, hi):
     return float(math.exp(rng.uniform(math.log(lo), math.log(hi))))
 
@@ -340,6 +351,9 @@ def run_case(ctx, family, params):
     if family == "observe-overflow":
         _observe(ctx, C, name, n, params)
         return
+    if family == "incidental":
+        _incidental(ctx, C, name, n)
+        return
     if n < 2:
         ctx.trivial()
 
@@ -349,9 +363,9 @@ def run_case(ctx, family, params):
             if name == "GaussLaguerre":
                 alpha = float(params["alpha"]) if "alpha" in params else float(-1 + 10 ** rng.uniform(-2, math.log10(21)))
                 ctx.case_note("alpha", alpha)
-                g = C(n, alpha) if rng.random() < 0.5 else C(npoints=n, alpha=alpha)
+                g = C(_n(n), alpha) if n % 2 else C(npoints=_n(n), alpha=alpha)
             else:
-                g = C(n)
+                g = C(_n(n))
             _size(ctx, name, g, n)
             _gram(ctx, name, g, n, alpha)
             ctx.hit("decided:" + name)
@@ -367,7 +381,7 @@ def run_case(ctx, family, params):
             kw = {arg: step}
         ctx.case_note("step", step)
         with ctx.guard("constructible", name):
-            g = C(n, **kw)
+            g = C(_n(n), **kw)
             _size(ctx, name, g, n)
             xr, wr = qref.substitution_reference(name, n, step)
             _check_def(ctx, name, g, xr, wr, {"n": n, "step": step})
@@ -376,7 +390,7 @@ def run_case(ctx, family, params):
 
     if name in CLOSED:
         with ctx.guard("constructible", name):
-            g = C(n)
+            g = C(_n(n))
             _size(ctx, name, g, n)
             if name == "UniformInteger":
                 xr, wr = qref.substitution_reference(name, n, 1.0)
@@ -409,7 +423,7 @@ def run_case(ctx, family, params):
             base = B(n)
             if name in TPOLY:
                 d = int(params["d"])
-                g = C(n, B, d) if general else (C(n, d) if rng.random() < 0.5 else C(n, d=d))
+                g = C(_n(n), B, d) if general else (C(n, d) if n % 2 else C(_n(n), d=d))
                 gx, gd = qref.poly_map_reference(d, base.points)
                 pr = {"n": n, "d": d, "base": base_name}
             else:
@@ -447,3 +461,17 @@ def _observe(ctx, C, name, n, params):
         ctx.trivial()
     finally:
         _state["mode"] = "decide"
+
+
+def _incidental(ctx, C, name, n):
+    """1-D grids the library itself derives from a rule (items, slices, radial transforms) are plain OneDGrids:
+    the attached invariant sees every one of them, but only counts (a user grid need not be ascending)."""
+    from grid.rtransform import BeckeRTransform, LinearFiniteRTransform
+
+    with ctx.guard("constructible", name):
+        g = C(n)
+        for idx in (0, n - 1, slice(1, None, 2), slice(None, n // 2)):
+            g[idx]
+        if g.domain == (-1, 1):
+            BeckeRTransform(1e-3, 1.5).transform_1d_grid(g)
+            LinearFiniteRTransform(0.5, 7.0).transform_1d_grid(g)
